@@ -2,6 +2,7 @@
 #include <chrono>
 #include <iostream>
 #include <functional>
+#include "../wverif.h"
 using namespace std;
 using namespace chrono;
 
@@ -90,6 +91,13 @@ Aesmode **runcrypt::prepare_AES(u8_t ctype, u8_t *iv, bool cmode)
   aesfactory.loadiv(iv);
   for (int i = 0; i < threads_num; i++)
     mode[i] = aesfactory.createCryMaster(cmode, ctype);
+  WV_ASSERT("[C18] every cipher stream is started from its own IV (stream 1 from IV 1, the last stream from the last IV)",
+            WV_STREAM_IV_IS(mode, WV_S1, iv + 20 * WV_S1) && WV_STREAM_IV_IS(mode, WV_SLAST, iv + 20 * WV_SLAST));
+  WV_ASSERT("[C18-envelope] a cipher stream is started from its own IV or, as recorded, from IV 0 - from nothing else",
+            (WV_STREAM_IV_IS(mode, WV_S1, iv + 20 * WV_S1) || WV_STREAM_IV_IS(mode, WV_S1, iv)) &&
+            (WV_STREAM_IV_IS(mode, WV_SLAST, iv + 20 * WV_SLAST) || WV_STREAM_IV_IS(mode, WV_SLAST, iv)));
+  WV_ASSERT("[C02,C01] every stream is an object of the class for (direction, mode) built from the user's key",
+            mode[WV_SLAST] != NULL && mode[WV_SLAST]->_wv_tag == WV_TAG_FOR(cmode, ctype) && WV_KEY16_EQ(WV_STREAM(mode, WV_SLAST)->crypt._base.key.init_key, this->key));
   return mode;
 }
 /*
